@@ -7,6 +7,7 @@ import (
 	"pgregory.net/rapid"
 
 	"verif/harness/internal/ev"
+	"verif/harness/internal/gen"
 	"verif/harness/internal/h"
 )
 
@@ -36,6 +37,18 @@ func caseGen() *rapid.Generator[Case] {
 		n := rapid.IntRange(3, max).Draw(t, "n")
 		var c Case
 		for i := 0; i < n; i++ {
+			if gen.Rarely(t, "lifo", 10) {
+				// a cell gets two keys, is copied, and then one of the two drops its newest key and takes another one
+				cell := Owner{Kind: "cell", I: rapid.IntRange(0, 5).Draw(t, "i"), J: rapid.IntRange(0, 3).Draw(t, "j")}
+				ka, kb, kc := rapid.IntRange(0, len(Keys)-1).Draw(t, "ka"), rapid.IntRange(0, len(Keys)-1).Draw(t, "kb"), rapid.IntRange(0, len(Keys)-1).Draw(t, "kc")
+				who := cell
+				if rapid.Bool().Draw(t, "on-copy") {
+					who = Owner{Kind: "copy", I: -1}
+				}
+				c.Ops = append(c.Ops, Op{K: "set", Owner: cell, Key: ka}, Op{K: "set", Owner: cell, Key: kb}, Op{K: "copycell", Owner: cell},
+					Op{K: "setnil", Owner: who, Key: kb}, Op{K: "set", Owner: who, Key: kc})
+				continue
+			}
 			k := rapid.SampledFrom([]string{"set", "set", "set", "set", "set", "setnil", "setnil", "reset", "copycell", "copycell", "addcopy", "grow", "grow", "hdr", "newrow", "attach", "sep", "handle", "handle", "setmany", "nestcell", "update"}).Draw(t, "op")
 			op := Op{K: k}
 			switch k {
